@@ -176,13 +176,14 @@ class TKA:
                 if r_[0] == "call" and "from_residual" in r_[1]:
                     shapes.add(("?", canon(r_[2][0])))
                     continue
-                bools = [(d[1], d[2]) for d in pi.decisions() if d[0] == "bool"]
+                # the kind test in canonical form (`a != k` false  ==  `a == k` true, either operand order, early return or if/else)
+                bools = tuple(sorted(set(f[:3] for f in pi.cmp_facts() if f[0] in ("Eq", "Ne") and f[2] == "kind")))
                 shape = r_[2].split("::")[-1] if r_[0] == "agg" else canon(r_)
                 payload = canon(r_[3][0][1]) if r_[0] == "agg" and r_[3] and shape == "Ok" else ""
-                shapes.add((shape, payload, tuple(bools)))
+                shapes.add((shape, payload, bools))
             want = {("?", "break!(Try::branch(Parser::get(self)))"),
-                    ("Ok", "try(Parser::get(self))", (("PartialEq::ne(try(Parser::get(self)).kind, kind)", False),)),
-                    ("Err", "", (("PartialEq::ne(try(Parser::get(self)).kind, kind)", True),))}
+                    ("Ok", "try(Parser::get(self))", (("Eq", "try(Parser::get(self)).kind", "kind"),)),
+                    ("Err", "", (("Ne", "try(Parser::get(self)).kind", "kind"),))}
             req("expect", shapes == want, "expect(k): tok = get()?; Ok(tok) iff tok.kind == k", "Parser::expect has shape %s" % sorted(shapes))
         else:
             req("expect", False, "", "Parser::expect not found")
